@@ -40,7 +40,11 @@ var uas = []ua{
 	{"typo", [][2]string{{"User-Agent", "kube-prob/1"}}, false, false},
 	{"case", [][2]string{{"User-Agent", "Kube-Probe/1.26"}}, false, false},
 	{"upper", [][2]string{{"User-Agent", "KUBE-PROBE/1.26"}}, false, false},
-	{"lead-ows", [][2]string{{"User-Agent", " kube-probe/1.26"}}, true, true}, // h1: OWS is not part of the field value
+	// HTTP/1.1: optional whitespace around a field value is not part of it (a probe). HTTP/2 carries the octets as
+	// they are: the value begins with a space or a tab, not with "kube-probe/" (forwarded)
+	{"lead-ows", [][2]string{{"User-Agent", " kube-probe/1.26"}}, true, true},
+	{"lead-tab", [][2]string{{"User-Agent", "\tkube-probe/1.26"}}, true, true},
+	{"trail-ows", [][2]string{{"User-Agent", "curl/8 "}, {"User-Agent", "kube-probe/1.26"}}, false, false},
 	{"infix", [][2]string{{"User-Agent", "curl/8 kube-probe/1.26"}}, false, false},
 	{"suffix", [][2]string{{"User-Agent", "Mozilla/5.0 (kube-probe/)"}}, false, false},
 	{"probe-then-text", [][2]string{{"User-Agent", "kube-probe/1.26 x"}}, true, false},
@@ -144,7 +148,7 @@ func runGroup(t *testing.T, rep *ev.Report, probeOn bool, proto, method string, 
 		n := 0
 		for _, u := range uas {
 			if u.h1only && proto == "h2" {
-				continue
+				u.probe = false
 			}
 			for oi, other := range [][][2]string{nil, {{"X-UA", "kube-probe/1.26"}}, {{"X-User-Agent", "kube-probe/1.26"}, {"Referer", "kube-probe/1.26"}},
 				{{"Range", "bytes=0-0"}, {"If-None-Match", "*"}}, {{"Range", "bytes=100-"}, {"If-Match", "\"x\""}, {"If-Modified-Since", "Mon, 02 Jan 2006 15:04:05 GMT"}},
